@@ -32,8 +32,8 @@ UNIT = dict(
             ("sub", "literal-types", r"let mut (total|failures|successes|slow) = 0;", r"let mut \1: usize = 0;", 4),
             ("loops", {0: """invariant
                 vx_i <= self.call_records@.len(),
-                total == vx_i, failures == rfail(self.call_records@.subrange(0, vx_i as int)),
-                slow == rslow(self.call_records@.subrange(0, vx_i as int)), successes + failures == total,
+                total == vx_i, failures == rfail(self.call_records@.subrange(0, vx_i as int)),   // #every_record_counted_once_failures_by_flag [C04]
+                slow == rslow(self.call_records@.subrange(0, vx_i as int)), successes + failures == total,   // #every_non_failure_counts_as_a_success_slow_or_not [C04,C09]
                 failures <= vx_i, slow <= vx_i,
               decreases self.call_records@.len() - vx_i"""}),
             ("inject", r"vx_i \+= 1;", "after", "proof { assert(self.call_records@.subrange(0, vx_i as int).drop_last() =~= self.call_records@.subrange(0, vx_i as int - 1)); }"),
